@@ -264,6 +264,8 @@ func checkC11(c *Ctx) {
 
 	// ---------------- R4
 	checkRecursion(c, cone)
+	c.Rule("R9", "every loop in the input cone ends by construction: range loop, counted loop, slice-consuming loop, or a loop that waits for input every iteration - no loop whose exit depends only on links looked up in peer-built data")
+	checkLoopsTerminate(c, "R9", cone)
 
 	// ---------------- R5
 	checkParsedLoops(c, cone)
@@ -1392,3 +1394,132 @@ func (p *Prog) returnMinLen(g *ssa.Function) (int64, bool) {
 }
 
 var debugEnv = false
+
+// checkLoopsTerminate (C11.R9): every loop in the code that handles peer input ends by construction. Accepted shapes:
+// a range loop (map/string iterator, or the index form); a counted loop (a loop-carried integer that changes by a
+// non-zero constant every iteration and is compared in an exit condition); a loop that consumes its input slice (a
+// loop-carried slice re-sliced from a positive offset); a loop that waits for input in every iteration (a select, a
+// channel operation, a read from the connection or decoder). Anything else - in particular a loop that follows links
+// looked up in a structure built from peer input - has no termination argument here and is reported.
+func checkLoopsTerminate(c *Ctx, rule string, cone []*ssa.Function) {
+	p := c.P
+	n := 0
+	for _, fn := range cone {
+		k := 0
+		for _, h := range loopHeaders(fn) {
+			n++
+			k++
+			// natural loop body: blocks dominated by h from which a back edge to h is reachable without leaving
+			body := map[*ssa.BasicBlock]bool{h: true}
+			var stack []*ssa.BasicBlock
+			for _, pred := range h.Preds {
+				if h.Dominates(pred) && !body[pred] {
+					body[pred] = true
+					stack = append(stack, pred)
+				}
+			}
+			for len(stack) > 0 {
+				b := stack[len(stack)-1]
+				stack = stack[:len(stack)-1]
+				for _, pr := range b.Preds {
+					if !body[pr] && h.Dominates(pr) {
+						body[pr] = true
+						stack = append(stack, pr)
+					}
+				}
+			}
+			shape := ""
+			for b := range body {
+				for _, in := range b.Instrs {
+					switch x := in.(type) {
+					case *ssa.Next:
+						shape = "range over a map or string"
+					case *ssa.Select:
+						shape = "waits in a select"
+					case *ssa.Send:
+						shape = "channel send"
+					case *ssa.UnOp:
+						if x.Op == token.ARROW {
+							shape = "channel receive"
+						}
+					case *ssa.Call:
+						cc := x.Common()
+						name := ""
+						if cc.IsInvoke() {
+							name = cc.Method.Name()
+						} else if g := calleeFn(cc); g != nil {
+							name = g.Name()
+						}
+						switch name {
+						case "Read", "ReadFull", "ReadByte", "ReadBytes", "ReadSlice", "ReadLine", "Peek", "Decode", "Accept", "ReadMsgUnix", "Recv", "Wait", "Sleep", "fill", "decode", "decodeResp", "handleRequest":
+							shape = "consumes input (" + name + ")"
+						}
+					}
+				}
+			}
+			if shape == "" {
+				for _, in := range h.Instrs {
+					ph, ok := in.(*ssa.Phi)
+					if !ok {
+						continue
+					}
+					for k, pred := range h.Preds {
+						if !h.Dominates(pred) || k >= len(ph.Edges) {
+							continue
+						}
+						e := ph.Edges[k]
+						if bo, ok := e.(*ssa.BinOp); ok && (bo.Op == token.ADD || bo.Op == token.SUB) && intBits(ph.Type()) > 0 {
+							step, isC := constInt(bo.Y)
+							base := bo.X
+							if !isC {
+								step, isC = constInt(bo.X)
+								base = bo.Y
+							}
+							if isC && step != 0 && base == ssa.Value(ph) {
+								// compared in an exit condition
+								for b := range body {
+									iff, ok := b.Instrs[len(b.Instrs)-1].(*ssa.If)
+									if !ok {
+										continue
+									}
+									leaves := !body[b.Succs[0]] || !body[b.Succs[1]]
+									cmp, ok := iff.Cond.(*ssa.BinOp)
+									if !ok || !leaves {
+										continue
+									}
+									for _, o := range []ssa.Value{cmp.X, cmp.Y} {
+										if o == ssa.Value(ph) || o == ssa.Value(bo) {
+											shape = "counted loop"
+										}
+									}
+								}
+							}
+						}
+						if sl, ok := e.(*ssa.Slice); ok && sl.Low != nil {
+							if base, ok := sl.X.(*ssa.Phi); ok && base == ph {
+								shape = "consumes its slice"
+							}
+						}
+					}
+				}
+			}
+			site := fmt.Sprintf("%s loop#%d terminates", fnKey(fn), k)
+			if shape != "" {
+				c.OK(rule, site, h.Instrs[0].Pos(), shape)
+			} else {
+				pos := h.Instrs[0].Pos()
+				for b := range body {
+					for _, in := range b.Instrs {
+						if !pos.IsValid() && in.Pos().IsValid() {
+							pos = in.Pos()
+						}
+					}
+				}
+				c.Fail(rule, site, pos, "this loop is neither a range loop, a counted loop, a loop that consumes its slice nor one that waits for input: its exit depends only on values looked up in data built from peer input (following links), so input that contains a cycle keeps it spinning for ever - the goroutine burns a CPU and whatever waits for it (the refresh loop, Stop) never returns ("+p.Pos(pos)+")")
+			}
+		}
+	}
+	if n == 0 {
+		c.Unresolved(rule, "no loop in the input cone")
+	}
+}
